@@ -2099,7 +2099,18 @@ func (s *BgpServer) handleFSMMessage(peer *peer, e *fsmMsg) {
 				// "Restart State" bit set in the received capability and excluding the
 				// ones that do not advertise the graceful restart capability) or ...snip...
 
+				// Not only the sender of this End-of-RIB may be waiting: its own
+				// deferral timer may have fired already while other peers are
+				// still held back until every GR peer has sent End-of-RIB.
 				localRestarting := conf.GracefulRestart.State.LocalRestarting
+				if !localRestarting {
+					for _, p := range s.neighborMap {
+						if p.fsm.pConf.ReadOnly().GracefulRestart.State.LocalRestarting {
+							localRestarting = true
+							break
+						}
+					}
+				}
 				if localRestarting {
 					allEnd := func() bool {
 						for _, p := range s.neighborMap {
